@@ -1,4 +1,5 @@
-prop('C03', families=[dict(name='lu', quick=3200, thorough=30000, extra=[], variants=['asan'], variants_thorough=['asan', 'idx64'], timeout=900)],
+prop('C03', families=[dict(name='lu', quick=3200, thorough=30000, extra=[], variants=['asan'], variants_thorough=['asan', 'idx64'], timeout=900),
+                        dict(name='symb', quick=1500, thorough=20000, variants=['asan'])],
      level_text='Proof (Lean 4) about the executable structure predicate wfSC (every clause of the property: supernode partition, shared row lists with leading own columns, distinct trailing rows below, U rows strictly above the supernode without repeats, monotone pointers, exact array lengths, stored counts = countnz): countnz equals the number of stored entries on well-formed structures, marker-filtered lists have no duplicates, fixupL maps leading entries to the supernode\'s own columns. wfSC is evaluated on every factor pair the implementation returns.',
      level_note='The imperative symbolic factorization (panel/column DFS, pruning) is not modelled; it is tied by running the verified checker on its output for every generated case (all tunings, orderings, types).',
      technique='Lean 4 verified checker (wfSC) run on every returned factor + theorems on countnz/fixupL/marker lists',
